@@ -26,7 +26,7 @@ func init() {
 		ID: "C16", Level: "model_checking",
 		Rule:   "BX: frame headers over length {0..12,255,16384,16385,2^24-1} x type {0..12,0x7f,0x80,0xff} x flags (all 256 for payloads <= 1 byte, else subsets of defined bits +- one undefined) x stream {0,1,2,2^31-1,R bit} x payload (all byte strings up to 2 bytes; longer: every value of each structural byte) x max {16384, 2^24-1}, each followed by a sentinel frame; every truncation offset of a 13-frame stream; HPACK: every byte string up to the bound through Next at 2 table states. Oracle: no panic; error or a correct reading of exactly 9+length bytes; must-error classes; allocation <= max+const; pool tracker clean and pools hand out distinct objects afterwards. Non-trivial: malformed or truncated input; distinct by bytes.",
 		Assume: []string{"peer.SemOf is RFC 7540 section 6 (validated against x/net in C05)", "allocation is measured with runtime.MemStats.TotalAlloc on one goroutine for the large-length subset only"},
-		Run:    runC16, Replay: replayC16, QuickS: 40, ThoroughS: 500,
+		Run:    runC16, Replay: replayC16, QuickS: 120, ThoroughS: 500,
 	})
 }
 
@@ -135,6 +135,14 @@ func c16Frame(cs c16Case) *fw.Violation {
 		if err == nil {
 			http2.ReleaseFrameHeader(fr)
 			return mk("accepts-oversized-frame", tn, fmt.Sprintf("length %d above the negotiated maximum %d was accepted", length, cs.Max))
+		}
+		// the error must be one that ends the connection: ErrUnknownFrameType is what both read loops
+		// take as "skip this frame and carry on", whatever its size
+		if errors.Is(err, http2.ErrUnknownFrameType) {
+			return mk("accepts-oversized-frame", tn+" skipped-as-unknown-type", fmt.Sprintf("frame type %#x with length %d above the negotiated maximum %d: the reader reports %v (which callers skip) and consumed %d bytes", typ, length, cs.Max, err, consumed))
+		}
+		if consumed > 9+int(cs.Max) {
+			return mk("oversized-frame-read-in-full", tn, fmt.Sprintf("length %d above the negotiated maximum %d was refused only after %d bytes had been taken off the reader", length, cs.Max, consumed))
 		}
 		return nil
 	}
